@@ -337,6 +337,10 @@ def check(ctx) -> None:
                 ctx.instance("C19-U7", "%s parses with %s (sanitize=%s); decompose: %s" % (gate.name, cfgc[0], cfgc[1], sorted(want)), gate.loc(c), ok=ok7)
                 if not ok7:
                     ctx.finding("C19-U7", "RuleImputeManager.%s:parser-weaker-than-decompose" % gate.name, gate.loc(c), "the validity gate parses with %s(sanitize=%s) while decompose parses with %s: a SMILES that passes the gate but that decompose cannot build is stored with an empty composition instead of being rejected" % (cfgc[0], cfgc[1], ", ".join("%s(sanitize=%s)" % w for w in sorted(want))))
+    # ---------------------------------------------------------------- U8
+    # the invariant holds in the initial states: every shipped record's composition is the composition of its SMILES
+    # (shared with C08-D1)
+    c08.rule_d1(ctx, "C19-U8")
     # ---------------------------------------------------------------- U5
     for name, rel, db in c08.databases(ctx):
         seen_f: Dict[str, int] = {}
